@@ -1,3 +1,4 @@
+import dataclasses
 from pathlib import Path
 from typing import Optional, Union
 
@@ -258,10 +259,14 @@ class SamplerCore:
         try:
             # Remove pool-related attributes that can't be pickled
             if hasattr(self.config, "pool") and self.config.pool is not None:
-                pool_state = self.config.pool
-                self.config.pool = None
-                d["sampler"] = dill.dumps(self)
-                self.config.pool = pool_state
+                # The config is a frozen dataclass: swap in a pool-less copy
+                # while pickling instead of assigning to its field.
+                config = self.config
+                self.config = dataclasses.replace(config, pool=None)
+                try:
+                    d["sampler"] = dill.dumps(self)
+                finally:
+                    self.config = config
             else:
                 d["sampler"] = dill.dumps(self)
         except Exception as e:
